@@ -8,6 +8,8 @@ from mc import forests as F, hsmrun
 from mc.hsmcheck import sweep, VARIANTS_ALL, mixed_style, replay_generic
 from mc.props import c01, c02, c03
 
+SAME_NAME = [("plain", "plain_same_name"), ("instrumented", "plain_same_name"), ("instrumented", "spied_same_name"),
+             ("queued", "plain_same_name"), ("queued_off", "spied_same_name")]
 PID = "C23"
 
 
@@ -19,7 +21,10 @@ def run(tier):
     rnd.shuffle(allf)
     sweep(res, [(c01.gen, allf, VARIANTS_ALL, [None]),
                 (c02.gen, allf, VARIANTS_ALL, [None]),
-                (c03.gen, allf, VARIANTS_ALL, [None, mixed_style])], fields=hsmrun.NAME_FIELDS)
+                (c03.gen, allf, VARIANTS_ALL, [None, mixed_style]),
+                # distinct state functions that all carry the same __name__: state_fn must follow the function, not the name
+                (c01.gen, [f for f in allf if len(f) <= 5], SAME_NAME, [None]),
+                (c03.gen, [f for f in allf if len(f) <= 5], SAME_NAME, [None])], fields=hsmrun.NAME_FIELDS)
     ao_part(res, tier)
     res.coverage.update({
         "rule": "scenario families of C01, C02, C03 on forests<=%d x 4 hosts; after start_at and after each of the "
